@@ -166,7 +166,7 @@ def run(ck):
         bwm = ['constant', 'adaptive'][(i // 2) % 2]           # adaptive: the bandwidth is re-estimated from the distance matrix the path itself computes
         for tag, ci in (('dense', None), ('fast', cinfo)):
             xr.seed_all(1500 + i)
-            mm = xr.xRFM(rfm_params=xr.default_rfm_params(kernel=kern, iters=0, reg=1e-2, bandwidth=3.0, exponent=[1.0, 1.2][i % 2], fast_categorical=(ci is not None),
+            mm = xr.xRFM(rfm_params=xr.default_rfm_params(kernel=kern, iters=0, reg=1.0, bandwidth=3.0, exponent=[1.0, 1.2][i % 2], fast_categorical=(ci is not None),
                                                           bandwidth_mode=bwm, **extra),
                          max_leaf_size=1000, verbose=False, use_temperature_tuning=False, categorical_info=ci)
             try:
@@ -182,7 +182,9 @@ def run(ck):
         scale = 1.0 + float(np.abs(outs['dense'][0]).max())
         if not outs['fast'][1].trees[0]['model'].kernel_obj.handle_categorical:
             ck.violation(f'categorical_info and fast_categorical=True were given but the leaf kernel does not use the categorical path ({kern})', dict(kernel=kern), key='model-cat-ignored')
-        if dev > 2e-4 * scale:
+        # float32 fits: the two paths' Gram matrices differ by ~1e-6 (different operation order); with ridge 1 the solve amplifies that by
+        # at most ~n, so 5e-4 relative separates rounding from a wrong kernel (seeded defects move predictions by 0.1-1)
+        if dev > 5e-4 * scale:
             ck.violation(f'xRFM fitted with categorical_info predicts differently from the same fit on the dense one-hot columns: max dev {dev:.3g} '
                          f'(kernel {kern}, levels {levels}, {nnum} numerical, {nout} outputs)', dict(kernel=kern, levels=levels, nnum=nnum, nout=nout, bandwidth_mode=bwm, dev=dev),
                          key=json.dumps(dict(site='model-categorical', kernel=kern, bw=bwm)))
